@@ -451,6 +451,10 @@ FilterGradient24 (rfbClient* client, int srcx, int srcy, int numRows)
   uint8_t pix[3];
   int est[3];
 
+  /* an empty row has no first pixel either */
+  if (client->rectWidth <= 0)
+    return;
+
   for (y = 0; y < numRows; y++) {
 
     /* First pixel in a row */
@@ -495,6 +499,10 @@ FilterGradientBPP (rfbClient* client, int srcx, int srcy, int numRows)
   uint16_t max[3];
   int shift[3];
   int est[3];
+
+  /* an empty row has no first pixel either */
+  if (client->rectWidth <= 0)
+    return;
 
 #if BPP == 32
   if (client->cutZeros) {
